@@ -38,6 +38,7 @@ def ops_for(nodes):
     ops.append(("remove_nodes_from", nodes[:2]))
     ops.append(("add_cpds_foreign",))
     ops.append(("add_cpds_notacpd",))
+    ops.append(("add_cpds_twice_same_variable", nodes[-1]))  # one call with two CPDs for one node: the later one wins, one CPD per node
     ops.append(("add_cpds_valid_and_foreign", nodes[0]))     # one call, first argument acceptable, second rejected
     ops.append(("remove_cpds_valid_and_missing", nodes[0]))
     ops.append(("do", nodes[:2]))
@@ -87,7 +88,7 @@ def scenarios(tier, seed):
                 for i in range(seed % 997, len(triples), 997):
                     out.append(dict(family="bn/3step", mode="bn", shape=b, nodes=nodes, parents=parents, card=card, cpds=with_cpds,
                                     ops=[list(x) for x in triples[i]], states="default", hashseed=0, latents=[]))
-    for i in range(6):
+    for i in range(8):
         out.append(dict(family="dbn", mode="dbn", variant=i, hashseed=i % 2))
     for i in range(6):
         out.append(dict(family="jt", mode="jt", variant=i, hashseed=i % 2))
@@ -207,6 +208,21 @@ def run_bn(desc, M):
                 k = card.get(v, 2)
                 ncol = int(np.prod([card[p] for p in pa])) if pa else 1
                 model.add_cpds(TabularCPD(v, k, [[1.0 / k] * ncol for _ in range(k)], evidence=pa or None, evidence_card=[card[p] for p in pa] or None))
+            elif kind == "add_cpds_twice_same_variable":
+                v = op[1]
+                if v not in model.nodes():
+                    continue
+                pa = list(model.predecessors(v))
+                card.update({p: 2 for p in pa if p not in card})
+                k = card.get(v, 2)
+                ncol = int(np.prod([card[p] for p in pa])) if pa else 1
+                first = TabularCPD(v, k, [[1.0 / k] * ncol for _ in range(k)], evidence=pa or None, evidence_card=[card[p] for p in pa] or None)
+                second = TabularCPD(v, k, [[0.75] * ncol] + [[0.25 / (k - 1)] * ncol for _ in range(k - 1)], evidence=pa or None,
+                                    evidence_card=[card[p] for p in pa] or None)
+                model.add_cpds(first, second)
+                mine = [c for c in model.cpds if c.variable == v]
+                M.check(len(mine) == 1 and mine[0] is second, "add_cpds with two CPDs for one node keeps exactly one CPD for it (the later argument)",
+                        detail=f"{tag}: {len(mine)} CPDs for {v}")
             elif kind == "add_cpds_valid_and_foreign":
                 v = op[1]
                 if v not in model.nodes():
@@ -326,7 +342,8 @@ def run_dbn(desc, M):
     v = desc["variant"]
     before = (set(d.nodes()), set(d.edges()))
     bad = [((("B", 0), ("A", 0)), "cycle"), ((("A", 0), ("A", 0)), "self"), ((("A", 1), ("B", 0)), "backward"), ((("A", 0), ("B", 2)), "skip"),
-           (("A", ("B", 0)), "type"), ((("B", 1), ("A", 1)), "cycle1")][v]
+           (("A", ("B", 0)), "type"), ((("B", 1), ("A", 1)), "cycle1"), ((("B", 2), ("A", 2)), "cycle named in slice 2"),
+           ((("B", 3), ("A", 3)), "cycle named in slice 3")][v]
     try:
         d.add_edge(*bad[0])
         ok = True
